@@ -937,6 +937,79 @@ def rule_r10(ctx):
         raise AnalysisBroken("no store to mq_cap outside init found")
 
 
+# ---------------------------------------------------------------------------
+# R11: a descriptor is raised on evidence that is still true
+
+
+def rule_r11(ctx):
+    r = ctx.rule("C15.R11", "T3", "a poll descriptor is raised on evidence that is still true: between the raise of a protocol pollable "
+                 "and the last thing that spoke for it in the same function -- a producing change of one of the fields its "
+                 "readiness is computed from (an append to the ready list, a put into the buffer, a non-null store) or a test "
+                 "of such a field -- nothing consumes from those fields: no removal / get / flush / resize of them and no call "
+                 "of a helper of the same file that does one. Raised after the helper that hands the freed pipe to a waiting "
+                 "context, the send descriptor announces a pipe that is busy again: it polls ready while a non-blocking send "
+                 "answers NNG_EAGAIN", floor=12)
+    prog = ctx.prog
+    nodes = node_lists(prog)
+    CONS = ("nni_list_remove", "nni_lmq_get", "nni_lmq_flush", "nni_list_node_remove", "nni_lmq_resize")
+    PROD = ("nni_list_append", "nni_list_prepend", "nni_lmq_put", "nni_list_insert_before", "nni_list_insert_after")
+
+    def direct(f, sup):
+        cons, prod = set(), set()
+        for pos, lf, txt in mutations(f, prog, nodes, sup):
+            e = f.expand(f.blocks[pos[0]].elems[pos[1]])
+            fn_ = e.get("fn") if e.get("k") == "call" else None
+            if fn_ in CONS:
+                cons.add(pos)
+            elif fn_ in PROD:
+                prod.add(pos)
+            elif e.get("k") == "asg":
+                rhs = f.expand(e["rhs"])
+                (cons if (is_null(rhs) or const_of(rhs) == 0) else prod).add(pos)
+        return cons, prod
+    n = 0
+    for poll, sup in sorted(SUPPORT.items()):
+        for f in prog.functions:
+            if f.cfg_failed or f.name.endswith(("_init", "_fini")):
+                continue
+            raises = [s_ for s_ in f.calls("nni_pollable_raise") if s_.node["args"] and last_field(f.expand(s_.node["args"][0])) == poll]
+            if not raises:
+                continue
+            cons, prod = direct(f, sup)
+            who = {}
+            for c in f.calls():
+                h = prog.resolve(f, c.node["fn"]) if c.node.get("fn") else None
+                if h is not None and h is not f and h.file == f.file and h.static and not h.cfg_failed:
+                    hc, hp = direct(h, sup)
+                    if hc:
+                        cons.add((c.b, c.i))
+                        who[(c.b, c.i)] = h.name
+                    elif hp:
+                        prod.add((c.b, c.i))
+            tests = set()
+            for b in f.blocks.values():
+                c = f.cond(b.id) if b.term and len(b.succs) == 2 else None
+                if c is not None and b.elems and any(m.get("k") == "mem" and last_field(m) in sup for m in walk(c)):
+                    tests.add((b.id, len(b.elems) - 1))
+            ev = prod | tests
+            for s_ in raises:
+                n += 1
+                bad = None
+                for cp in sorted(cons):
+                    if (s_.b, s_.i) in f.reach((cp[0], cp[1] + 1), blocked=lambda b, i, e: (b, i) in ev):
+                        bad = cp
+                        break
+                if bad is not None:
+                    ctx.fail(r, f, "%s raised after its evidence was consumed" % poll, s_.line,
+                             "%s raises %s at line %s after %s (line %s) has taken from %s, with nothing in between that speaks "
+                             "for readiness again: the descriptor polls ready while the operation would block"
+                             % (f.name, poll, s_.line, who.get(bad, "a removal"), f.line_of(*bad), " / ".join(sorted(sup))))
+                else:
+                    r.ob(f, "raise of %s at line %s: no consumer between the evidence and the raise" % (poll, s_.line))
+    if n < 12:
+        raise AnalysisBroken("only %d raises of protocol pollables found" % n)
+
+
 def run(ctx):
     ctx.guard(rule_a6)
     ctx.guard(rule_r4)
@@ -946,3 +1019,4 @@ def run(ctx):
     ctx.guard(rule_r8)
     ctx.guard(rule_r9)
     ctx.guard(rule_r10)
+    ctx.guard(rule_r11)
